@@ -7,7 +7,7 @@
    function), clock readings are arguments of Take/Reset. *)
 From Coq Require Import List NArith ZArith Bool Permutation.
 Import ListNotations.
-Require Import Base.Wire Base.PyStr C19.Model C19.Spec C19.Ledger C19.Order C19.Rate C19.Drain C19.Encode.
+Require Import Base.Wire Base.PyStr C19.Model C19.Spec C19.Ledger C19.Order C19.Rate C19.Drain C19.Encode C19.Refine C19.Live.
 
 (* Ledger: after any history, the messages accepted so far are exactly (as a
    multiset of stamped entries) those delivered, those dropped by a filter,
@@ -51,7 +51,7 @@ Print Assumptions C19_no_duplication.
 (* queueMsg either stores the message (result True) or changes nothing and says False. *)
 Theorem C19_queue_refusal_explicit : forall c s m s' evs,
   queueMsg c s m = (s', evs) ->
-  (exists e, evs = [Accepted e] /\ snd e = m /\ Permutation (pending s') (e :: pending s))
+  (exists e, evs = [Accepted FromQueue e] /\ snd e = m /\ Permutation (pending s') (e :: pending s))
   \/ (evs = [Refused true m] /\ s' = s).
 Proof. exact queue_refusal_explicit. Qed.
 Print Assumptions C19_queue_refusal_explicit.
@@ -61,7 +61,7 @@ Print Assumptions C19_queue_refusal_explicit.
    message is discarded and the result is None as on success. *)
 Theorem C19_send_refusal_on_domain : forall s m s' evs,
   zombie s = false -> sendMsg s m = (s', evs) ->
-  exists e, evs = [Accepted e] /\ snd e = m /\ fast s' = fast s ++ [e].
+  exists e, evs = [Accepted FromFast e] /\ snd e = m /\ fast s' = fast s ++ [e].
 Proof. exact send_refusal_on_domain. Qed.
 Print Assumptions C19_send_refusal_on_domain.
 
@@ -94,20 +94,41 @@ Theorem C19_fifo_in_class : forall c filt ops s evs0 o s' evs f e now,
 Proof. exact fifo_in_class. Qed.
 Print Assumptions C19_fifo_in_class.
 
-(* Throttle: in the trace of any history, two consecutive releases from the queue
-   (no reset between) are more than throttleTime apart. *)
+(* Refinement: every trace of every history (queueMsg/sendMsg/takeMsg/die/reset/
+   376/PONG with arbitrary clock readings, settings with throttleTime >= 0 and any
+   filter chain) is a trace of the abstract sender of Spec.v -- an express queue,
+   three FIFO queues served most-urgent-first, a throttle and a JOIN rate limit,
+   each taken entry meeting exactly one fate (delivered iff encodable, dropped by
+   a filter, or unsendable), a rate-limited JOIN possibly sent to the tail -- and
+   the abstract queues it ends with are the real ones. *)
+Theorem C19_refines : forall c filt ops s' evs,
+  (0 <= c_throttle c)%Z -> join_is_low = true ->
+  run_from c filt st0 ops = (s', evs) ->
+  exists t j, accepts (c_throttle c) (c_join c) A0 evs (A (fast s') (hi s') (no s') (lo s') t j None).
+Proof. intros c filt ops s' evs T J. exact (refines c filt T J ops s' evs). Qed.
+Print Assumptions C19_refines.
+
+(* Throttle (corollary of the refinement: it holds for every trace of the
+   abstract sender): two consecutive releases from the queue (no reset between)
+   are more than throttleTime apart. *)
 Theorem C19_throttle : forall c filt ops s' evs,
   (0 <= c_throttle c)%Z -> join_is_low = true ->
   run_from c filt st0 ops = (s', evs) -> throttle_ok (c_throttle c) None evs = true.
-Proof. intros c filt ops s' evs T J H. exact (proj1 (throttle_joinrate c filt T J ops s' evs H)). Qed.
+Proof.
+  intros c filt ops s' evs T J H. destruct (refines c filt T J ops s' evs H) as [t [j K]].
+  exact (accepts_throttle _ _ _ _ _ K).
+Qed.
 Print Assumptions C19_throttle.
 
-(* JOIN rate: two consecutive JOINs released from the queue are at least
-   rateLimit.join apart. *)
+(* JOIN rate (corollary of the refinement): two consecutive JOINs released from
+   the queue are at least rateLimit.join apart. *)
 Theorem C19_join_rate : forall c filt ops s' evs,
   (0 <= c_throttle c)%Z -> join_is_low = true ->
   run_from c filt st0 ops = (s', evs) -> joinrate_ok (c_join c) None evs = true.
-Proof. intros c filt ops s' evs T J H. exact (proj2 (throttle_joinrate c filt T J ops s' evs H)). Qed.
+Proof.
+  intros c filt ops s' evs T J H. destruct (refines c filt T J ops s' evs H) as [t [j K]].
+  exact (accepts_joinrate _ _ _ _ _ K).
+Qed.
 Print Assumptions C19_join_rate.
 
 (* the regenerated tables satisfy the hypothesis of the two theorems above *)
@@ -137,24 +158,29 @@ Theorem C19_drain_before_die : forall c filt s o s' evs,
 Proof. exact drain_before_die. Qed.
 Print Assumptions C19_drain_before_die.
 
-(* Eventual delivery of a held-back JOIN, step-level part only (hence _partial):
-   a failed attempt keeps the JOIN queued and does not move its deadline
-   lastJoin + rateLimit.join; once the clock has reached the deadline, an
-   un-throttled poll that finds the JOIN at the head of the queue releases it.
-   The full statement (every accepted message is released by a long enough
-   steady-polling schedule) is not proved; it is checked on the implementation
-   by the polling-tail oracle of the harness. *)
-Theorem C19_join_not_starved_partial : forall c filt,
-  (forall now s s', dequeue c now s = (s', None) ->
-     lastJoin s' = lastJoin s /\ Permutation (qpending s') (qpending s)) /\
-  (forall s now e r,
-     fast s = [] -> hi s = [] -> no s = [] -> lo s = e :: r -> is_join e = true ->
-     (c_throttle c < now - lastTake s)%Z -> (lastJoin s + c_join c <= now)%Z ->
-     exists s1 evs k, take_body c filt s now = (s1, evs, k) /\ In (Took FromQueue e now) evs
-                      /\ lo s1 = r /\ lastJoin s1 = now).
-Proof.
-  intros c filt. split.
-  - exact (join_deadline_fixed c).
-  - exact (join_released_at_deadline c filt).
-Qed.
-Print Assumptions C19_join_not_starved_partial.
+(* Eventual delivery under steady polling, with an explicit bound.  From any
+   state s reached by any history, not dying, with a steady clock (no jump
+   inside one takeMsg call): if takeMsg is called once per second at clock
+   readings t+1, t+2, ..., then after n polls, for any
+     n >= Psi c s (t+1) = |pending s| * ((T+1)*(J+1)+1)
+                          + max 0 (lastTake s + throttleTime - t)
+                          + (T+1) * max 0 (lastJoin s + J - t - 1)
+   with T = max 0 throttleTime and J = max 0 rateLimit.join (seconds, integers),
+   no message that was pending in s is still pending -- in particular a JOIN
+   held back by the rate limit is released.  (By C19_ledger what leaves the
+   queues was delivered, dropped by a filter or unencodable.) *)
+Theorem C19_delivery_under_polling : forall c filt,
+  (forall m dt, filt m = FDrop dt -> dt = 0%Z) ->
+  forall ops s evs0, run_from c filt st0 ops = (s, evs0) -> zombie s = false ->
+  forall t n, (Psi c s (t + 1) <= Z.of_nat n)%Z ->
+  forall e, In e (pending s) -> ~ In e (pending (polls c filt s t n)).
+Proof. exact delivery_under_polling. Qed.
+Print Assumptions C19_delivery_under_polling.
+
+(* A refusal by queueMsg has a reason: the Irc is dying, or queuing.duplicates is
+   on and an equal message is already waiting in the queue. *)
+Theorem C19_refusal_has_reason : forall c s m s' evs e,
+  queueMsg c s m = (s', evs) -> In (Refused e m) evs ->
+  zombie s = true \/ (c_dup c = true /\ q_contains s m = true).
+Proof. exact refusal_has_reason. Qed.
+Print Assumptions C19_refusal_has_reason.
